@@ -1,12 +1,13 @@
-\* full alphabet, full history, small budget (2 retries): every sequence is a path
+\* every status and set of item statuses (Elasticsearch-style bodies), full history, small budget (2 retries): every sequence is a path
 SPECIFICATION Spec
 CONSTANTS
   CodeMaxRetries = 2
   DocRetries = 2
   KindSet <- Kinds
-  Alpha <- AlphaFull
+  Alpha <- AlphaEs
   JitSet <- J0
   MaxDepth = 12
+  ItemShapeTolerant = TRUE
 INVARIANT TypeOK
 INVARIANT PropertyHolds
 CHECK_DEADLOCK FALSE
